@@ -339,6 +339,8 @@ def jsonable(x):
         return {"dtype": str(a.dtype), "shape": list(a.shape), "v": a.ravel().tolist()}
     if isinstance(x, (tuple, list)):
         return [jsonable(v) for v in x]
+    if isinstance(x, type) and issubclass(x, np.generic):
+        return {"npdtype": np.dtype(x).name}
     if isinstance(x, (int, float, str, bool)) or x is None:
         return x
     if isinstance(x, complex):
@@ -357,6 +359,8 @@ def unjson(env, x):
         return env.jnp.array(a)
     if isinstance(x, dict) and "complex" in x:
         return complex(*x["complex"])
+    if isinstance(x, dict) and "npdtype" in x:
+        return np.dtype(x["npdtype"]).type
     if isinstance(x, list):
         return tuple(unjson(env, v) for v in x)
     return x
@@ -469,9 +473,57 @@ def make_oracle(env):
         args = [unjson(env, a) for a in case.get("args", [])]
         kwargs = {k: unjson(env, v) for k, v in case.get("kwargs", {}).items()}
         fn_id = case["fn"]
-        try:
-            raw = env.resolve(fn_id)
-        except Exception:  # noqa: BLE001
+        raw = None
+        if kind in ("map", "reduce", "create"):
+            try:
+                raw = env.resolve(fn_id)
+            except Exception:  # noqa: BLE001
+                return None
+        if kind in ("reduce", "create"):
+            # documented behaviour written directly on the bound arguments
+            from scico.numpy import util
+
+            sn = snp_of(env, fn_id)
+            impl = impl_call(sn, args, kwargs)
+            try:
+                bound = dict(inspect.signature(raw).bind(*args, **kwargs).arguments)
+            except TypeError:
+                return None
+            try:
+                if kind == "reduce":
+                    bk = [k for k, v in bound.items() if isinstance(v, BA)]
+                    if not bk:
+                        return None
+                    if "axis" in bound:
+                        n = len(bound[bk[0]])
+                        if any(len(bound[k]) != n for k in bk):
+                            want = ("err", "type")
+                        else:
+                            want = ("blk", [raw(**{k: (v[i] if isinstance(v, BA) else v) for k, v in bound.items()}) for i in range(n)])
+                    elif len(bk) > 1:
+                        want = ("err", "value")
+                    else:
+                        cat = env.jnp.concatenate([env.jnp.ravel(b) for b in bound[bk[0]].arrays])
+                        want = ("one", raw(**dict(bound, **{bk[0]: cat})))
+                else:
+                    key = case.get("key", "shape")
+                    if key not in bound or not util.is_nested(bound[key]):
+                        return None
+                    want = ("blk", [raw(**dict(bound, **{key: s})) for s in bound[key]])
+            except Exception:  # noqa: BLE001
+                want = ("err", "any")
+            if want[0] == "err":
+                bad = impl[0] != "err"
+            elif impl[0] == "err":
+                bad = True
+            elif want[0] == "blk":
+                r = impl[1]
+                bad = not (isinstance(r, BA) and len(r) == len(want[1]) and all(same(w, r.arrays[i]) for i, w in enumerate(want[1])))
+            else:
+                bad = not same(want[1], impl[1])
+            if bad:
+                return {"call": fn_id, "args": case.get("args"), "kwargs": case.get("kwargs"), "scico_result": show_impl(impl),
+                        "documented": {"err": want[1]} if want[0] == "err" else be.describe(want[1])}
             return None
         if kind == "map":
             sn = snp_of(env, fn_id)
@@ -596,7 +648,7 @@ def section_names(env, ctx, model):
             run_call(env, ctx, model, "names", kind, fn_id, raw, snp_fn, args, dict(kwt), f"{fam_tag}/pos/a-boundary")
         # different numbers of blocks
         nb = sum(1 for x in tmpl if isinstance(x, str) and len(x) == 1 and x.isalpha())
-        if nb >= 2:
+        if nb >= 2 and (ctx.thorough or rng.random() < 0.4):
             args = instantiate(env, rng, tmpl, st)
             idx = [i for i, x in enumerate(args) if isinstance(x, env.BlockArray)]
             if len(args[idx[1]]) >= 2:
@@ -832,6 +884,8 @@ def section_operators(env, ctx, model):
             for okind, o in others:
                 if name in missing_reflected and isinstance(o, BA):
                     continue  # `o % x` with a block `o` is o.__mod__(x): the reflected method is never consulted
+                if name == "__rmod__" and isinstance(o, str):
+                    continue  # `"hi" % x` is string formatting (str.__mod__ succeeds): __rmod__ is never consulted
                 atoms = {f"s#{i}": x.arrays[i] for i in range(n)}
                 if isinstance(o, BA):
                     oj = {"b": [A(f"o#{i}") for i in range(len(o))]}
